@@ -30,6 +30,11 @@ pub fn judge(b: &Beh, obs: Obs) -> Verdict {
         v.why = format!("adversary move not applicable: {:?}", v.obs.skipped_adv);
         return v;
     }
+    if !v.obs.ser_errors.is_empty() {
+        let w = v.obs.ser_errors[0].clone();
+        fail(&mut v, format!("serialization: {}", w));
+        return v;
+    }
     for (name, exp, ob) in [
         ("setup", &e.setup, v.obs.setup.clone()),
         ("trim", &e.trim, v.obs.trim.clone()),
@@ -69,7 +74,7 @@ pub fn judge(b: &Beh, obs: Obs) -> Verdict {
                     );
                     return v;
                 }
-                if oo.claims_true == "false" {
+                if oo.claims_true == "false" && b.prop != "C12" {
                     v.verdict = "drift".into();
                     v.why = format!("op{}: spec says accept but the harness finds a claim false", i + 1);
                     return v;
